@@ -93,7 +93,7 @@ def r2(ctx, fs):
     env2, cl = posted(fs, f, env=env)
     A = lambda side: ('[]', OV + 'assigns', side)
     AT = lambda side: ('mcall', 'std::unordered_map<smt::var_value *, smt::lit>::at', A(side), '$0')
-    notin = ('if', ('!', ('mcall', 'std::unordered_set<smt::var_value *>::count', 'intersection', '$0.0')), True)
+    notin = ('if', ('mcall', 'std::unordered_set<smt::var_value *>::count', 'intersection', '$0.0'), False)      # guards are literals: (atom, polarity)
     want = {
         ((('each', A('left')), notin), frozenset({N('eq_lit'), N('$0.1')})),
         ((('each', A('right')), notin), frozenset({N('eq_lit'), N('$0.1')})),
